@@ -3,8 +3,10 @@
 set -u
 d=$1; p=$2; tier=${3:-quick}
 cd /repo && git apply --3way "$d/patch.diff" 2>/dev/null || git -C /repo apply "$d/patch.diff" || { echo "PATCH DOES NOT APPLY"; git -C /repo checkout -- . ; exit 3; }
+cp /verif/evidence/$p.json /tmp/ev_$p.json 2>/dev/null
 cd /verif && ./check $p --tier $tier 2>&1 | tail -3
 rc=$?
+cp /tmp/ev_$p.json /verif/evidence/$p.json 2>/dev/null
 git -C /repo reset -q --hard HEAD
 git -C /repo status --short | head -3
 exit $rc
